@@ -92,6 +92,18 @@ class Iso:
                     return fn, t
                 fn, t = p, u
                 continue
+            # projections of a tuple that was only built to be matched on: (a, b).1 -> b ; ((a, b).1 as Some).0 keeps its shape
+            if t[0] == "field" and str(t[2]).isdigit():
+                inner = strip(t[1])
+                if inner and inner[0] == "agg" and inner[1][0] == "tuple" and int(t[2]) < len(inner[2]):
+                    t = strip(inner[2][int(t[2])])
+                    continue
+                if inner and inner[0] == "variant":
+                    fn2, base = self.resolve(inner[1], fn)
+                    if base is not strip(inner[1]) and base != strip(inner[1]):
+                        t = ("field", ("variant", base, inner[2]), t[2])
+                        fn = fn2
+                        continue
             break
         return fn, t
 
